@@ -585,8 +585,11 @@ def rename_table(r, prog, maxn=5):
     olds = []
     if not names:
         return "\n".join(lines) + "\n", []
+    news = []
     for i in range(r.randint(1, maxn)):
-        new = r.choice(names)
+        # several aliases of one option are the interesting case (their relative order in every generated output)
+        new = r.choice(news) if (news and r.random() < 0.4) else r.choice(names)
+        news.append(new)
         if olds and r.random() < 0.15:
             old = r.choice(olds)  # duplicate mapping
             if old == new:
